@@ -371,6 +371,7 @@ class Model:
             model: solved model of self
         """
         logger.debug(f"Solving Model {self}")
+        self.param_dic.clear()
         self.param_dic.update(self.default_params)
         ns = 1
         for name in kargs:
@@ -428,6 +429,7 @@ class Model:
             update_dic (dict) : dictionary of parameters in the from
                 {param_name (str) : param_value (usually float)}
         """
+        self.param_dic.clear()
         self.param_dic.update(self.default_params)
         self.param_dic.update(update_dic)
 
